@@ -111,8 +111,10 @@ def norm_const(x):
     return str(x)
 
 
-def content(triples, top, model, variables=None):
-    """Graph content: top, variable set, multiset of triples after ONE deinversion.
+def content(triples, top, model, variables=None, deinvert=True):
+    """Graph content: top, variable set, multiset of triples after ONE deinversion
+    (deinvert=False: the triples as they are - used for decoded graphs, which must
+    already be in deinverted form).
 
     variables: the set of node variables (sources, plus the top); a triple is an
     edge when its role is not the concept role and its target is a variable.
@@ -126,7 +128,7 @@ def content(triples, top, model, variables=None):
         if not r.startswith(':'):
             r = ':' + r
         if r != ':instance' and t in variables:
-            if model.is_inverted(r) and not model.noop:
+            if deinvert and model.is_inverted(r) and not model.noop:
                 s, r, t = t, model.invert_role(r), s
             out.append((s, r, t, 'edge'))
         else:
